@@ -196,7 +196,7 @@ _p('C03', 'Step inheritance resolves override/extend correctly and the lookup is
             ('R3', 'LanguageGraph.regenerate_graph')], floor=5)
 
 _p('C04', 'The MAL compiler\'s output is the language the source text denotes',
-   ['R13', 'R9', 'R10', 'R22', 'R25'],
+   ['R13', 'R9', 'R17', 'R10', 'R22', 'R25'],
    decided=['R13a: every grammar rule has a visitor method (or is a documented inline rule)',
             'R13b: children the grammar can repeat without bound are consumed in full',
             'R13c: operator chains read the operator between each pair of operands',
@@ -373,7 +373,7 @@ _p('C14', 'A deep copy of an attack graph is equal and fully independent',
             ('R7', 'AttackGraph.__deepcopy__')], floor=20)
 
 _p('C16', 'Graph generation is deterministic and does not disturb its inputs',
-   ['R6', 'R22', 'R10', 'R20', 'R25'],
+   ['R6', 'R22', 'R10', 'R20', 'R17', 'R25'],
    decided=['R6: generation, analysis and lookups never mutate an object that may be owned by the loaded '
             'language specification',
             'R10 DET: no function reachable from compile / language graph / model load / generation / attach / '
@@ -388,7 +388,7 @@ _p('C16', 'Graph generation is deterministic and does not disturb its inputs',
    floor=5)
 
 _p('C17', 'Malformed MAL source is rejected, never half-compiled',
-   ['R9', 'R10', 'R22', 'R25'],
+   ['R9', 'R17', 'R10', 'R22', 'R25'],
    decided=['R9a: the parse tree reaches the visitor only under one of the accepted error idioms (raising '
             'error listener installed before the start rule / bail strategy / tested error count); the parser '
             'is constructed nowhere else; includes go through MalCompiler.compile',
